@@ -361,6 +361,126 @@ mut('m33_thread_branch_never_stores', ['C03'], MS, '''        let __result = (||
 /// Check if max_memory''', 'thread-local branch never stores')
 
 
+# ---- behaviour-preserving edits: every check must stay silent (run with all 20 checks) -------------
+def eqv(id_, file, old, new, note='', count=1):
+    M.append({'id': id_, 'props': [], 'file': file, 'old': old, 'new': new, 'note': note, 'count': count, 'equiv': True})
+
+
+eqv('e01_match_form', G, """            if let Some(entry) = m.get(key) {
+                if entry.is_expired(self.ttl) {
+                    expired = true;
+                } else {
+                    result = Some(entry.value.clone());
+                }
+            }""", """            match m.get(key) {
+                Some(entry) if entry.is_expired(self.ttl) => expired = true,
+                Some(entry) => result = Some(entry.value.clone()),
+                None => {}
+            }""", 'if-let -> match with guard')
+eqv('e02_swapped_operands', G, 'if o.len() > limit {', 'if limit < o.len() {', 'comparison operands swapped')
+eqv('e03_extract_helper', G, """        let mut o = self.order.lock();
+        if let Some(pos) = o.iter().position(|k| *k == key_s) {
+            o.remove(pos);
+        }
+        o.push_back(key_s.clone());
+
+        // Always handle""", """        let mut o = self.order.lock();
+        Self::requeue(&mut o, &key_s);
+
+        // Always handle""", 'dedupe+push extracted (helper added by e03b)')
+eqv('e04_de_morgan', A, 'if (self.limit.is_some() || self.max_memory.is_some())', 'if !(self.limit.is_none() && self.max_memory.is_none())', 'De Morgan on the bound test')
+eqv('e05_seqcst', ST, 'self.hits.fetch_add(1, Ordering::Relaxed);', 'self.hits.fetch_add(1, Ordering::SeqCst);', 'stronger ordering')
+eqv('e06_loop_match', A, """                        while let Some(evict_key) = order.pop_front() {
+                            if self.cache.contains_key(&evict_key) {
+                                self.cache.remove(&evict_key);
+                                break;
+                            }
+                            // Key doesn't exist in cache (already removed), try next one
+                        }""", """                        loop {
+                            match order.pop_front() {
+                                Some(evict_key) => {
+                                    if self.cache.contains_key(&evict_key) {
+                                        self.cache.remove(&evict_key);
+                                        break;
+                                    }
+                                }
+                                None => break,
+                            }
+                        }""", 'while-let -> loop/match')
+eqv('e07_is_expired_match', CE, """        if let Some(ttl_secs) = ttl {
+            self.inserted_at.elapsed().as_secs() >= ttl_secs
+        } else {
+            false
+        }""", """        match ttl {
+            Some(ttl_secs) => self.inserted_at.elapsed().as_secs() >= ttl_secs,
+            None => false,
+        }""", 'if-let -> match')
+eqv('e08_negated_fit', G, """                if current_mem <= max_mem {
+                    break;
+                }""", """                if !(current_mem > max_mem) {
+                    break;
+                }""", 'fit test written as negation')
+eqv('e09_retain_instead_of_position', U, """    let removed_from_order = if let Some(pos) = order.iter().position(|k| k == key) {
+        order.remove(pos);
+        true
+    } else {
+        false
+    };""", """    let before = order.len();
+    order.retain(|k| k != key);
+    let removed_from_order = order.len() != before;""", 'retain instead of position+remove (no duplicates in the queue)')
+eqv('e10_clear_named_guards', MS, """                            let mut order_write = #order_ident.lock();
+                            #cache_ident.write().clear();
+                            order_write.clear();""", """                            let mut order_write = #order_ident.lock();
+                            let mut map_write = #cache_ident.write();
+                            map_write.clear();
+                            order_write.clear();""", 'named guards in the clear callback')
+eqv('e11_scan_le', U, "            if entry.frequency < min_freq {", "            if entry.frequency <= min_freq {", 'ties are arbitrary: <= is as good as <')
+eqv('e12_async_insert_order_swapped', A, """        // Add the new entry to the order queue
+        order.push_back(key.to_string());
+
+        // Insert into cache with frequency initialized to 0
+        self.cache.insert(key.to_string(), (value, timestamp, 0));
+    }
+
+    /// Checks if a key""", """        // Insert into cache with frequency initialized to 0
+        self.cache.insert(key.to_string(), (value, timestamp, 0));
+
+        // Add the new entry to the order queue
+        order.push_back(key.to_string());
+    }
+
+    /// Checks if a key""", 'store and queue insertion swapped inside the critical section')
+eqv('e13_renamed_macro_locals', MS, """        let __key = #key_expr;
+        if let Some(cached) = __cache.get(&__key) {
+            #invalidation_check
+        }
+
+        let __result = (|| #block)();
+        #cache_condition
+        __result
+    }
+}
+
+/// A procedural macro""", """        let __key = #key_expr;
+        let __lookup = __cache.get(&__key);
+        if let Some(cached) = __lookup {
+            #invalidation_check
+        }
+
+        let __result = (|| #block)();
+        #cache_condition
+        __result
+    }
+}
+
+/// A procedural macro""", 'lookup result bound to a local first (global branch)')
+eqv('e14_other_safe_separator', MU, """                __key_parts.push((#arg_pats).to_cache_key());
+            )*
+            __key_parts.join("|")""", """                __key_parts.push((#arg_pats).to_cache_key());
+            )*
+            __key_parts.join("\\u{1f}|")""", 'a different separator that Debug never emits unescaped')
+
+
 def apply(m):
     if os.path.exists('/tmp/cachelito_mut'):
         shutil.rmtree('/tmp/cachelito_mut')
@@ -371,7 +491,11 @@ def apply(m):
     c = s.count(m['old'])
     if c != m['count']:
         return 'anchor matched %d times (expected %d)' % (c, m['count'])
-    open(p, 'w').write(s.replace(m['old'], m['new']))
+    s = s.replace(m['old'], m['new'])
+    if m['id'] == 'e03_extract_helper':
+        s = s.replace("    fn handle_entry_limit_eviction(&self, mut o: &mut MutexGuard<RawMutex, VecDeque<String>>) {",
+                      "    fn requeue(o: &mut VecDeque<String>, key_s: &String) {\n        if let Some(pos) = o.iter().position(|k| *k == *key_s) {\n            o.remove(pos);\n        }\n        o.push_back(key_s.clone());\n    }\n\n    fn handle_entry_limit_eviction(&self, mut o: &mut MutexGuard<RawMutex, VecDeque<String>>) {")
+    open(p, 'w').write(s)
     return None
 
 
@@ -406,10 +530,10 @@ def main():
         if err:
             res = {'id': m['id'], 'error': err}
         else:
-            props = ALL if allchecks else m['props']
+            props = ALL if (allchecks or m.get('equiv')) else m['props']
             r = run_checks(props)
             fired = {p: v['keys'] for p, v in r.items() if v['keys']}
-            res = {'id': m['id'], 'expected': m['props'], 'fired': fired, 'caught': any(r.get(p, {}).get('keys') and not r[p]['build_fail'] for p in m['props']),
+            res = {'id': m['id'], 'equiv': bool(m.get('equiv')), 'expected': m['props'], 'fired': fired, 'caught': any(r.get(p, {}).get('keys') and not r[p]['build_fail'] for p in m['props']),
                    'build_fail': any(v['build_fail'] for v in r.values()), 'tails': {p: v['tail'] for p, v in r.items() if v['tail']}, 'wall_s': round(time.time() - t0, 1), 'note': m['note']}
         print(json.dumps(res))
         with open(os.path.join(HERE, 'notes', 'mutation_results.jsonl'), 'a') as f:
